@@ -25,6 +25,7 @@ from common import errname
 PROP = "C19"
 THEOREMS = [
     "Verif.C19.cache_inv",
+    "Verif.C19.cache_inv_repair",
     "Verif.C19.purity_untruncated",
     "Verif.C19.derive_preserves_source",
     "Verif.C19.reachable_good",
